@@ -148,6 +148,57 @@ def run(res, tier, seed):
         res.count('map_%s' % ('ok' if a[0][0] == 0 else 'err'))
     for c in cmds[:3]:
         res.sample(sx.dump(c)[:500])
+    run_traverse(res, rng, n, limit)
+
+
+def wfun(code, is_leaf_fn, trace):
+    """the function family of Run.v wfun_of; records (kind, abstract argument) before acting"""
+    if code == 0:
+        return None
+    calls = [0]
+
+    def f(x):
+        i = calls[0]
+        calls[0] += 1
+        trace.append((0 if is_leaf_fn else 1, abstract(x)))
+        if code == 1:
+            return x
+        if code == 2:
+            return (x,) if is_leaf_fn else [x]
+        if i == code - 100:
+            raise UserExc(77)
+        return x
+    return f
+
+
+def run_traverse(res, rng, n, limit):
+    """cmd 24: PyTreeSpec.traverse with recording functions"""
+    cmds, obs = [], []
+    for i in range(n):
+        cfg = gen.gen_cfg(rng, limit)
+        g = gen.TreeGen(rng, world.STRUCTSEQ_ARITY, max_nodes=rng.choice([6, 15, 30]),
+                        max_depth=rng.choice([3, 5]), max_arity=rng.choice([2, 3, 5]))
+        t = g.tree()
+        fl = rng.choice([0, 1, 1, 2, 100 + rng.randrange(0, 5)])
+        fn = rng.choice([0, 1, 1, 2, 100 + rng.randrange(0, 4)])
+        case = (24, cfg, t, fl, fn)
+        with World(cfg) as w:
+            tree = realize(t, random.Random(i), {})
+            f = attempt(lambda: optree.tree_flatten(tree, **w.kw()))
+            if f[0] != 0:
+                o = f
+            else:
+                ls, sp = f[1]
+                trace = []
+                r = attempt(lambda: sp.traverse(ls, wfun(fn, False, trace), wfun(fl, True, trace)))
+                o = (0, (0, abstract(r[1])) if r[0] == 0 else r, tuple(trace))
+        cmds.append(case)
+        obs.append(o)
+        res.count('traverse_fl%s_fn%s' % (min(fl, 100), min(fn, 100)))
+        res.note_input(case, gen.obj_internal(t) >= 2)
+    mod = runner.run_model(cmds)
+    for c, a, b in zip(cmds, obs, mod):
+        res.compare(c, a, b, 'cmd_traverse_fn')
 
 
 if __name__ == '__main__':
